@@ -101,7 +101,10 @@ def _cases(draw):
         meta["bad"].append("dataset:" + BAD_DATASET[ds])
     row[g.pick(["dataset", "dataset", "list_name"])] = ds
     r = (lambda: "${%s}" % g.pick(names)) if names else (lambda: "'x'")
-    vals = {"entity_id": r(), "create_if": f"{r()} = {g.lit()}", "update_if": f"{r()} != {g.lit()}", "label": f"concat({r()}, {g.lit()})"}
+    # string literals with runs of spaces in them (a separator, a padded code): part of the expression, copied as typed
+    lit = lambda: g.pick(["'not  registered'", "'    '", "'  #'", "'a   b  c'"]) if g.p("_", 0.3) else g.lit()  # noqa: E731
+    vals = {"entity_id": r() if g.p("_", 0.7) else f"concat({r()}, {lit()}, {r()})", "create_if": f"{r()} = {lit()}", "update_if": f"{r()} != {lit()}",
+            "label": f"concat({r()}, {lit()})"}
     for col, on in zip(COLS, pat):
         if on:
             row[col] = vals[col]
